@@ -14,7 +14,28 @@ import time
 
 VERIF = os.path.dirname(os.path.dirname(os.path.abspath(__file__)))
 sys.path.insert(0, VERIF)
-from tools.mutants import MUTANTS  # noqa: E402
+
+
+def load_mutants():
+    res = []
+    d = os.path.join(VERIF, 'tools', 'mutants.d')
+    for fn in sorted(os.listdir(d)):
+        if not fn.endswith('.mut'):
+            continue
+        text = open(os.path.join(d, fn)).read()
+        head, _, rest = text.partition('<<<<<<< OLD\n')
+        old, _, rest = rest.partition('\n=======\n')
+        new, _, _ = rest.partition('\n>>>>>>> NEW')
+        m = {'id': fn[:-4], 'old': old, 'new': new}
+        for ln in head.splitlines():
+            if ln.startswith('# ') and ':' in ln:
+                k, _, v = ln[2:].partition(':')
+                m[k.strip()] = v.strip()
+        res.append(m)
+    return res
+
+
+MUTANTS = load_mutants()
 
 
 def run_mutant(m, tier='quick'):
